@@ -168,6 +168,12 @@ def check(ctx):
     # (d) statements: newline / indent / align options singly
     for pr in stmt_programs(1 if quick else 2):
         G(pr, "C", "defaults", {}, nl_family, None, 1)
+    # (d') a '//' comment at every token boundary of the C++ declaration units (a line comment swallowing the next token
+    #      is a token loss; a newline option joining lines moves code into the comment)
+    from . import c03
+    for name, src, lang in [x for x in c03.base_programs(True) if x[2] == "CPP"]:
+        for j, cls, vsrc, n in c03.variants(src, lang, "line", 4):
+            G((name + "+line/" + j, vsrc, {"ctx": "line-comment-holes"}), lang, "defaults", {}, nl_family, None, 1)
     # profiles (whitespace projection) on everything small
     for pn, p in P.items():
         if pn == "defaults":
